@@ -42,6 +42,10 @@ class AMinusB(SameArrayShapeMixin, Command):
         b = kwargs["B"].result
         self.validate_array_shapes([a, b], lineno=self.lineno)
 
+        if a.dtype.kind == "u" and b.dtype.kind == "u":
+            # The difference of two unsigned layers can be negative; subtract as signed integers instead of wrapping around
+            a, b = a.astype(numpy.int64), b.astype(numpy.int64)
+
         return a - b
 
 
